@@ -402,21 +402,37 @@ impl SuffixArrayBuilder {
     }
 
     /// SA-IS (Suffix Array by Induced Sorting) algorithm implementation
+    ///
+    /// The text is treated as if it were followed by a virtual sentinel that is
+    /// smaller than every symbol. The sentinel is never stored: it only decides
+    /// the type of the last suffix and seeds the L-type induction.
     fn sais_construct(&self, text: &[u8]) -> Result<Vec<usize>> {
+        let alphabet_size = if self.config.optimize_small_alphabet {
+            256 // Full byte alphabet
+        } else {
+            text.iter().max().map_or(0, |&m| m as usize + 1)
+        };
         // Add recursion depth limit to prevent stack overflow
-        self.sais_construct_with_depth(text, 0)
+        self.sais_construct_with_depth(text, alphabet_size, 0)
     }
-    
-    fn sais_construct_with_depth(&self, text: &[u8], depth: usize) -> Result<Vec<usize>> {
+
+    /// SA-IS over an arbitrary integer alphabet `0..alphabet_size`; the recursion on the
+    /// reduced string uses `usize` names, so any number of LMS substrings is supported.
+    fn sais_construct_with_depth<T: Copy + Ord + Into<usize>>(
+        &self,
+        text: &[T],
+        alphabet_size: usize,
+        depth: usize,
+    ) -> Result<Vec<usize>> {
         // Prevent stack overflow with recursion depth limit
         const MAX_RECURSION_DEPTH: usize = 100;
         if depth > MAX_RECURSION_DEPTH {
             // Fall back to simple sorting for deep recursion
             return self.fallback_sort(text);
         }
-        
+
         let n = text.len();
-        
+
         // Guard against excessive memory allocation
         const MAX_TEXT_SIZE: usize = 1 << 30; // 1GB limit
         if n > MAX_TEXT_SIZE {
@@ -424,114 +440,54 @@ impl SuffixArrayBuilder {
                 "Text too large for suffix array construction"
             ));
         }
-        
-        // Find alphabet size
-        let alphabet_size = if self.config.optimize_small_alphabet {
-            256 // Full byte alphabet
-        } else {
-            text.iter().max().unwrap_or(&0).wrapping_add(1) as usize
-        };
+
+        if n <= 1 {
+            return Ok((0..n).collect());
+        }
 
         // Step 1: Classify suffixes as L-type or S-type
         let (suffix_types, is_lms) = self.classify_suffixes(text)?;
 
-        // Step 2: Find LMS suffixes
+        // Step 2: Find LMS suffixes (in text order)
         let lms_suffixes = self.find_lms_suffixes(&is_lms);
 
-        if lms_suffixes.is_empty() {
-            // All suffixes are L-type (monotonically decreasing string)
-            return Ok((0..n).rev().collect());
-        }
-
-        // Step 3: Sort LMS suffixes
-        let mut sa = vec![0; n];
+        // Bucket boundaries per symbol
         let mut bucket = vec![0; alphabet_size];
         let mut bucket_heads = vec![0; alphabet_size];
         let mut bucket_tails = vec![0; alphabet_size];
-
-        // Count character frequencies
         for &ch in text {
-            bucket[ch as usize] += 1;
+            bucket[ch.into()] += 1;
         }
-
-        // Compute bucket boundaries
         self.compute_bucket_boundaries(&bucket, &mut bucket_heads, &mut bucket_tails);
 
-        // Initialize SA with sentinel values
-        for i in 0..n {
-            sa[i] = n; // Use n as sentinel (invalid index)
+        // Step 3: Sort the LMS substrings by inducing from the LMS suffixes in text order
+        let sa = self.induced_sort(text, &lms_suffixes, &suffix_types, &bucket_heads, &bucket_tails);
+        if lms_suffixes.len() <= 1 {
+            // Zero or one LMS suffix: they are trivially sorted, so the induction is final
+            return Ok(sa);
         }
 
-        // Place LMS suffixes at the end of their buckets with bounds checking
-        for &lms_idx in lms_suffixes.iter().rev() {
-            if lms_idx >= text.len() {
-                continue; // Skip invalid indices
-            }
-            let ch = text[lms_idx] as usize;
-            if ch < bucket_tails.len() && bucket_tails[ch] > 0 {
-                bucket_tails[ch] -= 1;
-                if bucket_tails[ch] < sa.len() {
-                    sa[bucket_tails[ch]] = lms_idx;
-                }
-            }
-        }
-
-        // Induce L-type suffixes
-        self.induce_l_type(&mut sa, text, &suffix_types, &bucket_heads)?;
-
-        // Induce S-type suffixes
-        self.induce_s_type(&mut sa, text, &suffix_types, &bucket_tails)?;
-
-        // Step 4: Compact LMS suffixes and check if they're unique
+        // Step 4: Name the LMS substrings in their sorted order
         let lms_sa = self.compact_lms_suffixes(&sa, &is_lms);
-        let lms_names = self.name_lms_substrings(text, &lms_sa, &lms_suffixes)?;
+        let (lms_names, num_names) = self.name_lms_substrings(text, &lms_sa, &lms_suffixes, &is_lms)?;
 
-        // Check if all LMS substrings are unique
-        let max_name = lms_names.iter().max().copied().unwrap_or(0);
-        
-        if (max_name as usize) < lms_suffixes.len() {
+        let sorted_lms: Vec<usize> = if num_names < lms_suffixes.len() {
             // Not all LMS substrings are unique, recursively sort them with depth tracking
-            let reduced_sa = self.sais_construct_with_depth(&lms_names, depth + 1)?;
-            
-            // Map back to original indices
-            let mut sorted_lms = Vec::new();
-            for &rank in &reduced_sa {
-                sorted_lms.push(lms_suffixes[rank]);
-            }
+            let reduced_sa = self.sais_construct_with_depth(&lms_names, num_names, depth + 1)?;
 
-            // Rebuild SA with sorted LMS suffixes
-            self.rebuild_sa_with_sorted_lms(text, &sorted_lms, &suffix_types, alphabet_size)
+            // Map back to original indices
+            reduced_sa.iter().map(|&rank| lms_suffixes[rank]).collect()
         } else {
-            // All LMS substrings are unique, SA is complete
-            // Handle any remaining sentinel values by finding missing indices
-            if sa.iter().any(|&x| x >= n) {
-                // Find which indices are missing from the suffix array
-                let mut present = vec![false; n];
-                for &val in sa.iter() {
-                    if val < n {
-                        present[val] = true;
-                    }
-                }
-                
-                let missing_indices: Vec<usize> = (0..n).filter(|&i| !present[i]).collect();
-                let mut missing_iter = missing_indices.into_iter();
-                
-                // Replace sentinel values with missing indices
-                for sa_val in sa.iter_mut() {
-                    if *sa_val >= n {
-                        if let Some(missing_idx) = missing_iter.next() {
-                            *sa_val = missing_idx;
-                        }
-                    }
-                }
-            }
-            
-            Ok(sa)
-        }
+            // All LMS substrings are unique: their order is the order of the LMS suffixes
+            lms_sa
+        };
+
+        // Step 5: Induce the final suffix array from the sorted LMS suffixes
+        Ok(self.induced_sort(text, &sorted_lms, &suffix_types, &bucket_heads, &bucket_tails))
     }
 
     /// Classify each suffix as L-type or S-type
-    fn classify_suffixes(&self, text: &[u8]) -> Result<(Vec<bool>, Vec<bool>)> {
+    fn classify_suffixes<T: Copy + Ord>(&self, text: &[T]) -> Result<(Vec<bool>, Vec<bool>)> {
         let n = text.len();
         let mut suffix_types = vec![false; n]; // false = L-type, true = S-type
         let mut is_lms = vec![false; n];
@@ -540,8 +496,9 @@ impl SuffixArrayBuilder {
             return Ok((suffix_types, is_lms));
         }
 
-        // Last suffix is S-type by definition
-        suffix_types[n - 1] = true;
+        // The last suffix is followed only by the virtual sentinel, which is smaller
+        // than every symbol, so it is L-type
+        suffix_types[n - 1] = false;
 
         // Classify suffixes from right to left
         for i in (0..n - 1).rev() {
@@ -588,70 +545,88 @@ impl SuffixArrayBuilder {
         }
     }
 
-    /// Induce L-type suffixes from left to right
-    fn induce_l_type(
+    /// One round of induced sorting: place the given LMS suffixes (in the given order) at
+    /// the ends of their buckets, then induce the L-type and the S-type suffixes
+    fn induced_sort<T: Copy + Ord + Into<usize>>(
         &self,
-        sa: &mut [usize],
-        text: &[u8],
+        text: &[T],
+        lms_order: &[usize],
         suffix_types: &[bool],
         bucket_heads: &[usize],
-    ) -> Result<()> {
+        bucket_tails: &[usize],
+    ) -> Vec<usize> {
+        let n = text.len();
+        let mut sa = vec![n; n]; // n is the "empty slot" marker
+
+        let mut tails = bucket_tails.to_vec();
+        for &lms_pos in lms_order.iter().rev() {
+            let ch: usize = text[lms_pos].into();
+            tails[ch] -= 1;
+            sa[tails[ch]] = lms_pos;
+        }
+
+        self.induce_l_type(&mut sa, text, suffix_types, bucket_heads);
+        // The S-type pass refills every bucket from its end, overwriting the LMS seeds
+        self.induce_s_type(&mut sa, text, suffix_types, bucket_tails);
+        sa
+    }
+
+    /// Induce L-type suffixes from left to right
+    fn induce_l_type<T: Copy + Ord + Into<usize>>(
+        &self,
+        sa: &mut [usize],
+        text: &[T],
+        suffix_types: &[bool],
+        bucket_heads: &[usize],
+    ) {
         let n = text.len();
         let mut heads = bucket_heads.to_vec();
 
-        for i in 0..n {
-            if sa[i] == n {
-                continue; // Skip sentinel values
-            }
-
-            let j = sa[i];
-            if j > 0 && j <= text.len() && !suffix_types[j - 1] {
-                // Predecessor is L-type
-                if j - 1 < text.len() {
-                    let ch = text[j - 1] as usize;
-                    if ch < heads.len() && heads[ch] < n && heads[ch] < sa.len() {
-                        sa[heads[ch]] = j - 1;
-                        heads[ch] += 1;
-                    }
-                }
-            }
+        // The virtual sentinel is the smallest suffix; its predecessor, the last suffix,
+        // is L-type and therefore the first entry of its bucket
+        if n > 0 {
+            let ch: usize = text[n - 1].into();
+            sa[heads[ch]] = n - 1;
+            heads[ch] += 1;
         }
 
-        Ok(())
+        for i in 0..n {
+            let j = sa[i];
+            if j == n || j == 0 {
+                continue; // Empty slot, or no predecessor
+            }
+            if !suffix_types[j - 1] {
+                // Predecessor is L-type
+                let ch: usize = text[j - 1].into();
+                sa[heads[ch]] = j - 1;
+                heads[ch] += 1;
+            }
+        }
     }
 
     /// Induce S-type suffixes from right to left
-    fn induce_s_type(
+    fn induce_s_type<T: Copy + Ord + Into<usize>>(
         &self,
         sa: &mut [usize],
-        text: &[u8],
+        text: &[T],
         suffix_types: &[bool],
         bucket_tails: &[usize],
-    ) -> Result<()> {
+    ) {
         let n = text.len();
         let mut tails = bucket_tails.to_vec();
 
         for i in (0..n).rev() {
-            if sa[i] == n {
-                continue; // Skip sentinel values
-            }
-
             let j = sa[i];
-            if j > 0 && j <= text.len() && suffix_types[j - 1] {
+            if j == n || j == 0 {
+                continue; // Empty slot, or no predecessor
+            }
+            if suffix_types[j - 1] {
                 // Predecessor is S-type
-                if j - 1 < text.len() {
-                    let ch = text[j - 1] as usize;
-                    if ch < tails.len() && tails[ch] > 0 && tails[ch] <= sa.len() {
-                        tails[ch] -= 1;
-                        if tails[ch] < sa.len() {
-                            sa[tails[ch]] = j - 1;
-                        }
-                    }
-                }
+                let ch: usize = text[j - 1].into();
+                tails[ch] -= 1;
+                sa[tails[ch]] = j - 1;
             }
         }
-
-        Ok(())
     }
 
     /// Compact LMS suffixes from the suffix array
@@ -667,154 +642,69 @@ impl SuffixArrayBuilder {
             .collect()
     }
 
-    /// Assign names to LMS substrings based on their lexicographic order
-    fn name_lms_substrings(
+    /// Assign names to LMS substrings based on their lexicographic order.
+    /// Returns the names in text order of the LMS suffixes and the number of distinct names.
+    fn name_lms_substrings<T: Copy + Ord>(
         &self,
-        text: &[u8],
+        text: &[T],
         lms_sa: &[usize],
         lms_suffixes: &[usize],
-    ) -> Result<Vec<u8>> {
-        let mut names = vec![0u8; lms_suffixes.len()];
-        let mut current_name = 0u8;
-
-        if !lms_sa.is_empty() {
-            names[0] = current_name;
-
-            for i in 1..lms_sa.len() {
-                if !self.are_lms_substrings_equal(text, lms_sa[i - 1], lms_sa[i], lms_suffixes)? {
-                    current_name = current_name.wrapping_add(1);
-                }
-                
-                // Find position of lms_sa[i] in lms_suffixes with bounds checking
-                if lms_sa[i] < text.len() {
-                    let pos = lms_suffixes.iter().position(|&x| x == lms_sa[i])
-                        .ok_or_else(|| crate::error::ZiporaError::invalid_data("LMS suffix not found"))?;
-                    if pos < names.len() {
-                        names[pos] = current_name;
-                    }
-                } else {
-                    return Err(crate::error::ZiporaError::invalid_data("Invalid LMS suffix index"));
-                }
-            }
+        is_lms: &[bool],
+    ) -> Result<(Vec<usize>, usize)> {
+        if lms_sa.len() != lms_suffixes.len() {
+            return Err(crate::error::ZiporaError::invalid_data("LMS suffix not found"));
         }
 
-        Ok(names)
+        // Position of each LMS suffix in text order
+        let mut index_of = vec![usize::MAX; text.len()];
+        for (k, &pos) in lms_suffixes.iter().enumerate() {
+            index_of[pos] = k;
+        }
+
+        let mut names = vec![0usize; lms_suffixes.len()];
+        let mut current_name = 0usize;
+
+        for i in 0..lms_sa.len() {
+            if i > 0 && !self.are_lms_substrings_equal(text, lms_sa[i - 1], lms_sa[i], is_lms) {
+                current_name += 1;
+            }
+            names[index_of[lms_sa[i]]] = current_name;
+        }
+
+        let num_names = if lms_sa.is_empty() { 0 } else { current_name + 1 };
+        Ok((names, num_names))
     }
 
-    /// Check if two LMS substrings are equal
-    fn are_lms_substrings_equal(
+    /// Check if two LMS substrings (from an LMS position up to and including the next one)
+    /// are equal
+    fn are_lms_substrings_equal<T: Copy + Ord>(
         &self,
-        text: &[u8],
+        text: &[T],
         pos1: usize,
         pos2: usize,
-        lms_suffixes: &[usize],
-    ) -> Result<bool> {
-        if pos1 >= text.len() || pos2 >= text.len() {
-            return Ok(false);
-        }
-        
-        // Additional safety check for bounds
+        is_lms: &[bool],
+    ) -> bool {
         if pos1 == pos2 {
-            return Ok(true);
+            return true;
         }
 
-        // Find the end of each LMS substring
-        let end1 = self.find_lms_substring_end(pos1, lms_suffixes, text.len());
-        let end2 = self.find_lms_substring_end(pos2, lms_suffixes, text.len());
-
-        let len1 = end1 - pos1;
-        let len2 = end2 - pos2;
-
-        if len1 != len2 {
-            return Ok(false);
-        }
-
-        // Compare character by character with bounds checking
-        for i in 0..len1 {
-            if pos1 + i >= text.len() || pos2 + i >= text.len() {
-                return Ok(false);
-            }
-            if text[pos1 + i] != text[pos2 + i] {
-                return Ok(false);
-            }
-        }
-
-        Ok(true)
-    }
-
-    /// Find the end position of an LMS substring
-    fn find_lms_substring_end(&self, start: usize, lms_suffixes: &[usize], text_len: usize) -> usize {
-        // Find next LMS position after start
-        lms_suffixes.iter()
-            .find(|&&pos| pos > start)
-            .copied()
-            .unwrap_or(text_len)
-    }
-
-    /// Rebuild the suffix array with sorted LMS suffixes
-    fn rebuild_sa_with_sorted_lms(
-        &self,
-        text: &[u8],
-        sorted_lms: &[usize],
-        suffix_types: &[bool],
-        alphabet_size: usize,
-    ) -> Result<Vec<usize>> {
         let n = text.len();
-        let mut sa = vec![n; n]; // Initialize with sentinel values
-        let mut bucket = vec![0; alphabet_size];
-        let mut bucket_heads = vec![0; alphabet_size];
-        let mut bucket_tails = vec![0; alphabet_size];
-
-        // Count character frequencies
-        for &ch in text {
-            bucket[ch as usize] += 1;
+        let mut i = 0;
+        loop {
+            let (a, b) = (pos1 + i, pos2 + i);
+            if a >= n || b >= n {
+                // One substring ends at the virtual sentinel, which occurs only once
+                return false;
+            }
+            if text[a] != text[b] {
+                return false;
+            }
+            if i > 0 && (is_lms[a] || is_lms[b]) {
+                // Equal only if both substrings end here
+                return is_lms[a] && is_lms[b];
+            }
+            i += 1;
         }
-
-        // Compute bucket boundaries
-        self.compute_bucket_boundaries(&bucket, &mut bucket_heads, &mut bucket_tails);
-
-        // Place sorted LMS suffixes with bounds checking
-        for &lms_pos in sorted_lms.iter().rev() {
-            if lms_pos >= text.len() {
-                continue;
-            }
-            let ch = text[lms_pos] as usize;
-            if ch < bucket_tails.len() && bucket_tails[ch] > 0 {
-                bucket_tails[ch] -= 1;
-                if bucket_tails[ch] < sa.len() {
-                    sa[bucket_tails[ch]] = lms_pos;
-                }
-            }
-        }
-
-        // Induce L-type and S-type suffixes
-        self.induce_l_type(&mut sa, text, suffix_types, &bucket_heads)?;
-        self.induce_s_type(&mut sa, text, suffix_types, &bucket_tails)?;
-
-        // Handle any remaining sentinel values by finding missing indices
-        if sa.iter().any(|&x| x >= n) {
-            // Find which indices are missing from the suffix array
-            let mut present = vec![false; n];
-            for &val in sa.iter() {
-                if val < n {
-                    present[val] = true;
-                }
-            }
-            
-            let missing_indices: Vec<usize> = (0..n).filter(|&i| !present[i]).collect();
-            let mut missing_iter = missing_indices.into_iter();
-            
-            // Replace sentinel values with missing indices
-            for sa_val in sa.iter_mut() {
-                if *sa_val >= n {
-                    if let Some(missing_idx) = missing_iter.next() {
-                        *sa_val = missing_idx;
-                    }
-                }
-            }
-        }
-        
-        Ok(sa)
     }
 
     /// DC3 (Divide-and-Conquer-3) algorithm implementation
@@ -900,7 +790,7 @@ impl SuffixArrayBuilder {
     }
     
     /// Fallback sorting algorithm for when recursion depth is exceeded
-    fn fallback_sort(&self, text: &[u8]) -> Result<Vec<usize>> {
+    fn fallback_sort<T: Ord>(&self, text: &[T]) -> Result<Vec<usize>> {
         if text.is_empty() {
             return Ok(Vec::new());
         }
